@@ -69,7 +69,9 @@ def _case(draw, tier):
             # one case in six: the surviving pid is also the path of an existing regular file
             "filepid": draw(st.integers(0, 5)) == 0,
             # one case in five: the store path is RELATIVE to the current directory (and has a blank in it)
-            "relative_root": draw(st.integers(0, 4)) == 0}
+            "relative_root": draw(st.integers(0, 4)) == 0,
+            # one case in four: depth and width are given as integer-like strings (hashstore.yaml must still record integers)
+            "int_as_str": draw(st.integers(0, 3)) == 0}
 
 
 def strategy(tier):
@@ -138,6 +140,8 @@ def run_case(case, ctx):
         os.chdir(work)
         roots = [f"rel store {i}" for i in range(2)]
         ctx.classify("relative-store-path")
+    if case.get("int_as_str"):
+        ctx.classify("depth-and-width-given-as-strings")
     try:
         _run_scripts(case, ctx, cfgs, roots, ids, fmts, files)
     finally:
@@ -149,14 +153,15 @@ def run_case(case, ctx):
 def _run_scripts(case, ctx, cfgs, roots, ids, fmts, files):
     for i in case["order"]:
         cfg, root = cfgs[i], roots[i]
-        o = call(common.make_store, root, cfg)
+        ias = bool(case.get("int_as_str"))
+        o = call(common.make_store, root, cfg, int_as_str=ias)
         if not is_ok(o):
             if o[1] == "RuntimeError" and "harness" in o[2]:
                 raise o[3]
             ctx.violation("store-creation-failed", f"cfg {cfg.to_json()}: creating / opening the store raised {o[1]}: {o[2][:200]}",
                           {"err": o[1]})
             continue
-        outs = _script(lambda: common.make_store(root, cfg), ids, fmts, files)
+        outs = _script(lambda: common.make_store(root, cfg, int_as_str=ias), ids, fmts, files)
         bad = [(n, o[1], o[2][:120]) for n, o in enumerate(outs) if not is_ok(o)]
         if bad:
             ctx.violation("script-call-failed", f"cfg {cfg.to_json()} ids={[repr(s)[:40] for s in ids]}: {bad[:2]}",
